@@ -8,10 +8,14 @@ pub mod c07;
 pub mod c08;
 pub mod c09;
 pub mod c10;
+pub mod c11;
 pub mod c13;
 pub mod c14;
 pub mod c15;
 pub mod c16;
+pub mod c17;
+pub mod c18;
+pub mod c19;
 pub mod c20;
 
 use crate::engine::sched::{Choice, Cost, ScenarioFactory};
@@ -43,10 +47,14 @@ dispatch! {
     "C08" => c08,
     "C09" => c09,
     "C10" => c10,
+    "C11" => c11,
     "C13" => c13,
     "C14" => c14,
     "C15" => c15,
     "C16" => c16,
+    "C17" => c17,
+    "C18" => c18,
+    "C19" => c19,
     "C20" => c20,
 }
 
